@@ -246,7 +246,21 @@ func factsUnshare(repo string) {
 			}
 			return true
 		})
-		// every UnlockOSThread directly guarded by `if isReversible`
+		// the flag that guards the unlocks: the one variable defined as `<masked flags> == 0` (whatever it is called)
+		guard := "isReversible"
+		ast.Inspect(fd.Body, func(n ast.Node) bool {
+			if as, ok := n.(*ast.AssignStmt); ok && as.Tok == token.DEFINE && len(as.Lhs) == 1 && len(as.Rhs) == 1 {
+				if be, ok := as.Rhs[0].(*ast.BinaryExpr); ok && be.Op == token.EQL {
+					if bl, ok := be.Y.(*ast.BasicLit); ok && bl.Value == "0" {
+						if id, ok := as.Lhs[0].(*ast.Ident); ok {
+							guard = id.Name
+						}
+					}
+				}
+			}
+			return true
+		})
+		// every UnlockOSThread directly guarded by `if <guard>`
 		var stack []ast.Node
 		ast.Inspect(fd.Body, func(n ast.Node) bool {
 			if n == nil {
@@ -258,7 +272,7 @@ func factsUnshare(repo string) {
 				ok := false
 				for i := len(stack) - 1; i >= 0; i-- {
 					if is, isIf := stack[i].(*ast.IfStmt); isIf {
-						if id, isId := is.Cond.(*ast.Ident); isId && id.Name == "isReversible" && is.Else == nil {
+						if id, isId := is.Cond.(*ast.Ident); isId && id.Name == guard && is.Else == nil {
 							ok = true
 						}
 						break
@@ -274,10 +288,10 @@ func factsUnshare(repo string) {
 			}
 			if as, ok := n.(*ast.AssignStmt); ok {
 				for i, l := range as.Lhs {
-					if id, ok := l.(*ast.Ident); ok && id.Name == "isReversible" && i < len(as.Rhs) {
+					if id, ok := l.(*ast.Ident); ok && id.Name == guard && i < len(as.Rhs) {
 						r := exprString(p.fset, as.Rhs[i])
 						switch {
-						case as.Tok == token.DEFINE && r == "maskedFlags == 0":
+						case as.Tok == token.DEFINE && strings.HasSuffix(r, " == 0"):
 						case as.Tok == token.ASSIGN && r == "false":
 							setnsFailClears = true
 						default:
@@ -348,9 +362,10 @@ func factsChroot(repo string) {
 	flags := "none"
 	switchInSetup := false
 	if fd, _ := findFunc(p, "goInChroot", ""); fd != nil {
+		le := e.withLocals(fd.Body)
 		ast.Inspect(fd.Body, func(n ast.Node) bool {
 			if ce, ok := n.(*ast.CallExpr); ok && isSel(ce.Fun, "unshare", "Go") && len(ce.Args) == 3 {
-				c := e.eval(ce.Args[0], 0)
+				c := le.eval(ce.Args[0], 0)
 				if u, ok := constant.Uint64Val(c); ok && c.Kind() == constant.Int {
 					flags = "some " + strconv.FormatUint(u, 10)
 				}
@@ -548,14 +563,50 @@ func factsCopy(p *pkg) {
 // ---------------------------------------------------------------- archive.go / changes
 
 func rangeExprs(fset *token.FileSet, body ast.Node) []string {
+	// a ranged expression that was merely given a local name counts as the expression itself
+	defs := map[string]ast.Expr{}
+	count := map[string]int{}
+	ast.Inspect(body, func(n ast.Node) bool {
+		if as, ok := n.(*ast.AssignStmt); ok && len(as.Lhs) == len(as.Rhs) {
+			for i, l := range as.Lhs {
+				if id, ok := l.(*ast.Ident); ok {
+					count[id.Name]++
+					if as.Tok == token.DEFINE {
+						defs[id.Name] = as.Rhs[i]
+					}
+				}
+			}
+		}
+		return true
+	})
 	var xs []string
 	ast.Inspect(body, func(n ast.Node) bool {
 		if rs, ok := n.(*ast.RangeStmt); ok {
-			xs = append(xs, exprString(fset, rs.X))
+			x := rs.X
+			if id, ok := x.(*ast.Ident); ok && count[id.Name] == 1 {
+				if d, ok := defs[id.Name]; ok {
+					x = d
+				}
+			}
+			xs = append(xs, exprString(fset, x))
 		}
 		return true
 	})
 	return xs
+}
+
+// pipeWriterName: the name given to the write end in `r, w := io.Pipe()` inside fd ("" if there is none)
+func pipeWriterName(fd *ast.FuncDecl) string {
+	name := ""
+	ast.Inspect(fd.Body, func(n ast.Node) bool {
+		if as, ok := n.(*ast.AssignStmt); ok && len(as.Lhs) == 2 && len(as.Rhs) == 1 && isCall(as.Rhs[0], "io", "Pipe") {
+			if id, ok := as.Lhs[1].(*ast.Ident); ok {
+				name = id.Name
+			}
+		}
+		return true
+	})
+	return name
 }
 
 func countCalls(body ast.Node, pkgName, fn string) int {
@@ -713,6 +764,9 @@ func factsStreams(repo string, arch *pkg) {
 	check := func(name, fn string, markers []string) {
 		okv := false
 		if fd, fset := findFunc(arch, fn, ""); fd != nil {
+			if w := pipeWriterName(fd); w != "" {
+				markers = []string{w + ".Close()", w + ".CloseWithError("} // whatever the write end is called
+			}
 			if b := goroutineBody(fd); b != nil {
 				okv = everyReturnAfterClose(fset, b, markers)
 			}
